@@ -29,6 +29,7 @@ CLAIM = (
     "interruption point is the right level: a lost piece of state (optimizer moments, scheduler epoch, lr history) shows only at "
     "particular splits and only for particular optimizers/schedulers."
     " Further enumerated dimensions: keyword interactions across calls (optimizer_params re-passed without scheduler_params, a probe optimizer attached in a later stage), learning rates that are exactly zero at split points, a refused write-once save before the interruption (learnable dataset), and checkpoints written from inside the run by a logger subclass's per-iteration hook at every iteration and both stores."
+    " Round-6 dimensions: runs of 12 (thorough 21) iterations with every split point, periodic checkpoints written onto ONE name (mode 'o') and reloaded after every overwrite, checkpoints continued by a fresh interpreter (other hash seed, working directory, import order; relative names), and scheduler option pairs (cycled momentum, plateau with cooldown and floor)."
 )
 NOTE = (
     "Trusted: the tiny problems of checks/_ptycho.py; full-batch updates only (mini-batch order is re-seeded on load and outside the "
